@@ -1250,9 +1250,11 @@ impl PeerConnection {
             )));
         }
         let should_set_controlling = {
-            let local = self.inner.local_description.lock();
-            let remote = self.inner.remote_description.lock();
-            local.is_none() && remote.is_none()
+            // One lock at a time: setup_sdes (transport task) takes remote_description and then
+            // local_description, so holding local while waiting for remote here can deadlock.
+            let no_local = self.inner.local_description.lock().is_none();
+            let no_remote = self.inner.remote_description.lock().is_none();
+            no_local && no_remote
         };
 
         if should_set_controlling {
